@@ -11,7 +11,6 @@ mod c17;
 mod c19;
 mod goscope;
 mod c13;
-mod c15;
 mod c16;
 mod probe;
 mod rng;
@@ -35,7 +34,6 @@ fn main() {
         "c17" => c17::main(&args),
         "c19" => c19::main(&args),
         "c13" => c13::main(&args),
-        "c15" => c15::main(&args),
         "c16" => c16::main(&args),
         "probe" => probe::main(&args),
         other => {
